@@ -128,7 +128,10 @@ def _r1(model, rep):
                 return PyFunc(lambda a, k, n: False)
             if nm in ("shape",):
                 raise Unsupported("opaque." + nm)
-            return PyFunc(lambda a, k, n: self)
+            return self          # an attribute array, or a method (callable)
+
+        def skv_call(self, a, k, n):
+            return self
 
         def skv_getitem(self, ix):
             return self
@@ -978,8 +981,8 @@ MUTANTS = [
      (FM, "                f\"skfem:s:{name}\": [", "                "
       "f\"skfem:d:{name}\": ["), "C17-R1"),
     ("decoder splits keys at another separator",
-     (FM, "            subnames = name.split(\":\")", "            subnames "
-      "= name.split(\"-\")"), "C17-R1"),
+     (FM, "            subnames = name.split(\":\", 2)", "            "
+      "subnames = name.split(\"-\", 2)"), "C17-R1"),
     ("bit weights doubled on the encoder side only",
      (FM, "            return (1 << np.arange(self.refdom.nfacets)) @ "
       "t2f_mask", "            return (2 << np.arange(self.refdom.nfacets)) "
